@@ -1,9 +1,9 @@
-SPECIFICATION Spec
+SPECIFICATION TSpec
 CONSTANTS
   N = 3
-  RD = 2
+  RD = 1
   CAP = 2
-  MaxOps = 4
+  MaxOps = 12
   FaultAt = 0
   KeepStaleOnFail = FALSE
   PanicOnMiss = FALSE
@@ -13,7 +13,8 @@ CONSTANTS
   EarlyReturnOnForeign = FALSE
   KeepCurAfterKeep = FALSE
   KeepOnGet = FALSE
-  Foreign = {2, 3}
+  Foreign = {}
   RealCache = FALSE
-INVARIANTS NoPanic DataIdentity ErrorsTrue NoStaleMapping CacheBounded Capacities NoLeak
-CHECK_DEADLOCK TRUE
+CONSTRAINT HWM
+POSTCONDITION PostHWM
+CHECK_DEADLOCK FALSE
